@@ -1,7 +1,7 @@
 (** C13 — author heads and news detection.
     Proved: the head table holds the per-author maximum after every history of inserts (any
     timestamp order), what [has_news_for] counts, and the size-limited encoding. *)
-From ID Require Import Base.Bytes Model.Entry Model.Put Model.Tables Model.Bounds Model.FsStore Model.StoreOps Model.Heads Proofs.HeadsFacts Proofs.MigrateFacts Proofs.FsPutFacts.
+From ID Require Import Base.Bytes Model.Entry Model.Put Model.Tables Model.Bounds Model.FsStore Model.StoreOps Model.Heads Proofs.HeadsFacts Proofs.MigrateFacts Proofs.FsPutFacts Proofs.HeadKeyFacts.
 
 Theorem C13_has_news_counts : forall theirs ours,
   has_news theirs ours = N.of_nat (length (filter (is_news ours) theirs)).
@@ -42,6 +42,15 @@ Example C13_encode_distinct_ts_refuted :
   heads_encode_items true heads None = [(7, 3)] /\ heads_encode_items false heads None = [(7, 3); (7, 2)].
 Proof. exact encode_distinct_ts_refuted. Qed.
 
+(** the key reported with a head: after every history of inserts the head of (document, author)
+    names an entry that is held -- that author's, at the head's timestamp, under the head's key *)
+Theorem C13_head_names_a_held_entry : forall EH l, Forall wf_entry l ->
+  forall ns au t k, head_row (fs_puts EH empty_tables l) ns au = Some (t, k) ->
+    exists w, In w (recs (fs_puts EH empty_tables l)) /\ of_author ns au w /\ e_ts w = t /\ e_key w = k.
+Proof. exact head_keys_exact. Qed.
+Theorem C13_insert_keeps_head_key : forall EH T e, wf_records T -> wf_entry e -> KInv T -> KInv (fst (fs_put prefix_succ EH T e)).
+Proof. exact fs_put_head_key. Qed.
+
 Print Assumptions C13_has_news_counts.
 Print Assumptions C13_encode_nolimit_all.
 Print Assumptions C13_encoded_items_are_the_heads.
@@ -65,3 +74,5 @@ Check (eq_refl : HInv = fun T => forall ns au,
     end).
 Print Assumptions C13_heads_are_maxima.
 Print Assumptions C13_insert_keeps_heads.
+Print Assumptions C13_head_names_a_held_entry.
+Print Assumptions C13_insert_keeps_head_key.
